@@ -123,6 +123,33 @@ package round
 //@   loop 2 invariant forall k in 0..$idx+1 :: !(pruneRounds[k] in s.items)
 //@   loop 2 invariant forall r int64 :: r in s.items ==> r > round || (exists k in $idx+1..len(pruneRounds) :: pruneRounds[k] == r)
 
+// ---------------------------------------------------------------- notarized blocks of a round (C35)
+
+//@ spec blocksNonNil(r *Round) bool = (forall i in 0..len(r.notarizedBlocks) :: r.notarizedBlocks[i] != nil) && (forall i in 0..len(r.proposedBlocks) :: r.proposedBlocks[i] != nil)
+
+// "updating a notarized block replaces it with the given block"
+//@ func (*Round).UpdateNotarizedBlock
+//@   prop C35
+//@   requires r != nil && b != nil && held(r.mutex) == 0 && rheld(r.mutex) == 0 && blocksNonNil(r)
+//@   requires obj(r.notarizedBlocks) != obj(r.proposedBlocks) || len(r.notarizedBlocks) == 0 || len(r.proposedBlocks) == 0
+//@   ensures len(r.notarizedBlocks) == old(len(r.notarizedBlocks)) && len(r.proposedBlocks) == old(len(r.proposedBlocks))
+//@   ensures[replaced] forall i in 0..len(r.notarizedBlocks) :: old(r.notarizedBlocks[i]).Hash == b.Hash ==> r.notarizedBlocks[i] == b
+//@   ensures[others-kept] forall i in 0..len(r.notarizedBlocks) :: old(r.notarizedBlocks[i]).Hash != b.Hash ==> r.notarizedBlocks[i] == old(r.notarizedBlocks[i])
+//@   ensures[proposed-replaced] forall i in 0..len(r.proposedBlocks) :: old(r.proposedBlocks[i]).Hash == b.Hash ==> r.proposedBlocks[i] == b
+//@   lock-balanced r.mutex
+//@   loop 1 header "for i, pb := range r.proposedBlocks"
+//@   loop 1 invariant held(r.mutex) == 1 && rheld(r.mutex) == 0 && r.proposedBlocks == old(r.proposedBlocks) && r.notarizedBlocks == old(r.notarizedBlocks)
+//@   loop 1 invariant forall k in 0..len(r.notarizedBlocks) :: r.notarizedBlocks[k] == old(r.notarizedBlocks[k])
+//@   loop 1 invariant forall k in 0..$idx+1 :: old(r.proposedBlocks[k]).Hash == b.Hash ==> r.proposedBlocks[k] == b
+//@   loop 1 invariant forall k in $idx+1..len(r.proposedBlocks) :: r.proposedBlocks[k] == old(r.proposedBlocks[k])
+//@   loop 1 invariant forall k in 0..len(r.proposedBlocks) :: r.proposedBlocks[k] != nil
+//@   loop 2 header "for i, nb := range r.notarizedBlocks"
+//@   loop 2 invariant held(r.mutex) == 1 && rheld(r.mutex) == 0 && r.proposedBlocks == old(r.proposedBlocks) && r.notarizedBlocks == old(r.notarizedBlocks)
+//@   loop 2 invariant forall k in 0..len(r.proposedBlocks) :: old(r.proposedBlocks[k]).Hash == b.Hash ==> r.proposedBlocks[k] == b
+//@   loop 2 invariant forall k in 0..$idx+1 :: old(r.notarizedBlocks[k]).Hash == b.Hash ==> r.notarizedBlocks[k] == b
+//@   loop 2 invariant forall k in 0..$idx+1 :: old(r.notarizedBlocks[k]).Hash != b.Hash ==> r.notarizedBlocks[k] == old(r.notarizedBlocks[k])
+//@   loop 2 invariant forall k in $idx+1..len(r.notarizedBlocks) :: r.notarizedBlocks[k] == old(r.notarizedBlocks[k])
+
 // ---------------------------------------------------------------- round state (C37)
 
 //@ func (*Round).setPhase
